@@ -80,7 +80,7 @@ Example C19_history_example :
                         r_conds := []; r_noct := []; r_enc := None |};
                      {| r_id := 2; r_method := L "GET"; r_rel := L "/p/{x}"; r_consumes := []; r_produces := [];
                         r_conds := []; r_noct := []; r_enc := None |} ] |} ] |};
-                d_cfilters := [ {| f_id := L "c0"; f_pre := [AAttr (L "k") (L "v")]; f_pass := true; f_post := []; f_fresh := false; f_mw := 0 |} ];
+                d_cfilters := [ {| f_id := L "c0"; f_pre := [AAttr (L "k") (L "v")]; f_pass := true; f_post := []; f_fresh := false; f_mw := 0; f_wrap := false |} ];
                 d_sfilters := []; d_rfilters := [];
                 d_handlers := [(1%Z, [ASee (L "k"); AWrite (L "body")]); (2%Z, [AWrite (L "partial"); APanic (L "boom")])];
                 d_encoding := true; d_recover := true; d_recover_script := [AStatus 500; AWrite (L "<r>")]; d_condpanic := []; d_plain := [] |} in
